@@ -220,6 +220,10 @@ func refLike(t *TypeD) bool { return t.Kind == KPtr || t.Kind == KSlice || t.Kin
 func (s *scriptT) renderCaller(c *Case, calleeExpr string, setup []string) {
 	cx := s.cx
 	s.run = append(s.run, setup...)
+	if c.Ctx == "defineloop" {
+		s.renderDefineLoop(c, calleeExpr)
+		return
+	}
 	var args []string
 	type wparam = struct{ name, typ string }
 	var wps []wparam
@@ -476,6 +480,56 @@ func (s *scriptT) renderCaller(c *Case, calleeExpr string, setup []string) {
 	}
 }
 
+// renderDefineLoop: `q0, q1 := callee(a0s[k], a1s[k])` in a loop, a pointer to / closure over each declared variable kept after every
+// execution and read after the loop.
+func (s *scriptT) renderDefineLoop(c *Case, calleeExpr string) {
+	cx := s.cx
+	switch c.Callee {
+	case "fnvar":
+		s.run = append(s.run, "fv := "+calleeExpr)
+		calleeExpr = "fv"
+	case "fntyped":
+		s.run = append(s.run, "var fv "+c.Sig.ID+" = "+calleeExpr)
+		calleeExpr = "fv"
+	}
+	n := len(c.Sig.In)
+	var qs, as []string
+	for i, t := range c.Sig.In {
+		lits := make([]string, len(c.Iters))
+		for k, it := range c.Iters {
+			lits[k] = cx.lit(it[i], false)
+		}
+		s.run = append(s.run, fmt.Sprintf("a%ds := []%s{%s}", i, t.ID, strings.Join(lits, ", ")))
+		switch c.Capture[i] {
+		case "ptr":
+			s.run = append(s.run, fmt.Sprintf("var k%ds []*%s", i, t.ID))
+		case "closure":
+			s.run = append(s.run, fmt.Sprintf("var k%ds []func() %s", i, t.ID))
+		}
+		qs = append(qs, fmt.Sprintf("q%d", i))
+		as = append(as, fmt.Sprintf("a%ds[k]", i))
+	}
+	body := []string{strings.Join(qs, ", ") + " := " + calleeExpr + "(" + strings.Join(as, ", ") + ")"}
+	var reads []string
+	for i, t := range c.Sig.In {
+		switch c.Capture[i] {
+		case "ptr":
+			body = append(body, fmt.Sprintf("k%ds = append(k%ds, &q%d)", i, i, i))
+			reads = append(reads, fmt.Sprintf("hp.Rec(%q, %q, *k%ds[k])", fmt.Sprintf("q%d", i), t.ID, i))
+		case "closure":
+			body = append(body, fmt.Sprintf("k%ds = append(k%ds, func() %s { return q%d })", i, i, t.ID, i))
+			reads = append(reads, fmt.Sprintf("hp.Rec(%q, %q, k%ds[k]())", fmt.Sprintf("q%d", i), t.ID, i))
+		default:
+			body = append(body, fmt.Sprintf("_ = q%d", i))
+		}
+	}
+	_ = n
+	s.run = append(s.run, "for k := range a0s { "+strings.Join(body, "; ")+" }")
+	if len(reads) > 0 {
+		s.run = append(s.run, "for k := range a0s { "+strings.Join(reads, "; ")+" }")
+	}
+}
+
 // keepCallee: the parameters of the wrapper function W that stand for the callee (receiver, method value, function variable).
 func keepCallee(wps []struct{ name, typ string }) []struct{ name, typ string } {
 	var out []struct{ name, typ string }
@@ -522,6 +576,25 @@ func (s *scriptT) renderCallee(c *Case, name string) {
 func nativeCall(c *Case, env *nativeEnv, fv reflect.Value) {
 	ft := fv.Type()
 	bc := &buildCtx{env: env}
+	if c.Ctx == "defineloop" {
+		// every execution of the short variable declaration declares new variables: what was kept of them reads their own results
+		var all [][]reflect.Value
+		for _, it := range c.Iters {
+			in := make([]reflect.Value, len(it))
+			for i, v := range it {
+				in[i] = bc.build(v, ft.In(i))
+			}
+			all = append(all, fv.Call(in))
+		}
+		for _, res := range all {
+			for i, r := range res {
+				if c.Capture[i] != "none" {
+					env.recordStatic(fmt.Sprintf("q%d", i), ft.Out(i), r.Interface())
+				}
+			}
+		}
+		return
+	}
 	var in []reflect.Value
 	for k, v := range c.Args {
 		var target reflect.Type
